@@ -31,6 +31,10 @@ Lang == TLCEval(IF Mode = "tokens" THEN QueryLMacro(LL) ELSE QueryL(LL))
 
 TokensOK == Mode = "tokens" => (PQuery(TokSeq).ok <=> s \in Lang)
 BytesOK == Mode = "bytes" => (PQuery(Tokens(s)).ok <=> Sentence(TokensRef(s), Lang))
+\* the macro-token strings with the verdict / tree of the transcribed parser, for replay as text
+EmitTokens == (Mode = "tokens" /\ Emit) =>
+   LET r == PQuery(TokSeq) IN
+   PrintT(ToJson(IF r.ok THEN [m |-> s, ok |-> TRUE, e |-> r.e, gb |-> r.gb] ELSE [m |-> s, ok |-> FALSE]))
 EmitBytes == (Mode = "bytes" /\ Emit) =>
    LET r == Parse(s) IN
    PrintT(ToJson(IF r.ok THEN [s |-> s, ok |-> TRUE, e |-> r.e, gb |-> r.gb] ELSE [s |-> s, ok |-> FALSE]))
